@@ -116,7 +116,7 @@ def main():
             na.append({"property_id": pid, "reason": BUILDING})
     manifest = {
         "version": 1,
-        "setup_cmd": "cd /verif/harness && CARGO_NET_OFFLINE=true cargo build --release --offline",
+        "setup_cmd": "cd /verif/harness && CARGO_NET_OFFLINE=true cargo build --release --offline && CARGO_NET_OFFLINE=true cargo build --profile relwrap --offline",
         "hooks": {
             "guard": "cargo feature verif-hooks on nexrad-data (off by default)",
             "enable": "the harness crate depends on nexrad-data with features=[\"verif-hooks\"]; S3 requests go to $NEXRAD_VERIF_S3_ENDPOINT when set; aws::realtime::verif_hooks::search forwards to the private rotated search",
